@@ -40,6 +40,9 @@ pub struct Case {
     pub n_links: u8,
     pub base: u32,
     pub classic: bool,
+    /// per link: NAKs charged before the history starts (walks the window towards the floor)
+    #[serde(default)]
+    pub pre_naks: Vec<u8>,
     pub ops: Vec<Op>,
 }
 
@@ -100,9 +103,10 @@ pub fn strategy(which: Which, max_ops: usize) -> impl Strategy<Value = Case> {
         1u8..=4,
         prop_oneof![Just(0u32), Just(1u32 << 30), 0u32..(0x7fff_ffff - 80_000), Just(0x7fff_ffff - 80_000)],
         any::<bool>(),
+        vec(prop_oneof![5 => Just(0u8), 3 => 183u8..196, 1 => 1u8..183], 4),
         vec(op, 1..max_ops),
     )
-        .prop_map(|(n_links, base, classic, ops)| Case { n_links, base, classic, ops })
+        .prop_map(|(n_links, base, classic, pre_naks, ops)| Case { n_links, base, classic, pre_naks, ops })
 }
 
 fn data_pkt(seq: u32) -> Vec<u8> {
@@ -202,6 +206,20 @@ pub fn check(case: &Case, obs: &mut Obs, which: Which) -> CheckResult {
     }
     let mut sh = Shell::new(&addrs, cfg);
     sh.establish_all();
+    // windows near the floor: real NAKs for sequence numbers far outside the history's span
+    for (i, k) in case.pre_naks.iter().enumerate() {
+        if i < sh.st.conns.len() && *k > 0 {
+            let now = sh.st.now;
+            for j in 0..*k as i32 {
+                let sq = 0x7fff_0000 - (i as i32) * 1000 - j;
+                sh.st.conns[i].register_packet(sq, now);
+                sh.st.conns[i].handle_nak(sq, now);
+            }
+            if sh.st.conns[i].window <= 1500 {
+                obs.class("window-near-floor");
+            }
+        }
+    }
     // model keyed by conn_id (stable across removals)
     let mut model: BTreeMap<u64, MLink> = sh.st.conns.iter().map(|c| (c.conn_id, MLink::default())).collect();
     let mut owners = Owners::default();
